@@ -26,7 +26,7 @@ var (
 )
 
 func sysInvalid(rng *proto.Rng) []sysObj {
-	switch rng.Intn(14) {
+	switch rng.Intn(15) {
 	case 0: // missing name
 		return []sysObj{{ID: jid{"ns1", "", "", "ConfigMap"}}}
 	case 1: // namespaced kind without namespace
@@ -56,6 +56,8 @@ func sysInvalid(rng *proto.Rng) []sysObj {
 		return []sysObj{{ID: soC.ID, Deps: []jid{soB.ID, soB.ID}}, soB, soA}
 	case 11: // s: malformed reference, its dependency k present
 		return []sysObj{{ID: soS.ID, DepsRaw: "x//y"}, soK}
+	case 13: // a <-> b cycle between tracked catalogue objects; c depends on b: behind the cycle, not on it
+		return []sysObj{{ID: soA.ID, Deps: []jid{soB.ID}}, soB, soC}
 	case 12: // m: mutation annotation with an external source listed before the in-set source a
 		return []sysObj{{ID: soM.ID, MutFrom: soM.MutFrom, MutExt: true}}
 	default: // missing kind
@@ -218,6 +220,12 @@ func sysHandWritten() []sysIn {
 			{Kind: "destroy"}}},
 		{Pre: pre, Runs: []sysRun{{Kind: "apply", Objs: []sysObj{soA, soB, soC}},
 			{Kind: "apply", Objs: []sysObj{soA, soB, {ID: soC.ID, Deps: []jid{soB.ID, soB.ID}}}, Opts: sysOpts{SkipInvalid: true}}}},
+		// a tracked chain a <- b <- c; later a gains a dependency on b (cycle a <-> b), c is behind the cycle: all three stay tracked
+		{Pre: pre, Runs: []sysRun{{Kind: "apply", Objs: []sysObj{soA, soB, soC}},
+			{Kind: "apply", Objs: []sysObj{{ID: soA.ID, Deps: []jid{soB.ID}}, soB, soC}, Opts: sysOpts{SkipInvalid: true}},
+			{Kind: "destroy"}}},
+		// an object of the inventory disappears behind the library's back; the destroy that follows deletes everything that exists
+		{Pre: pre, Runs: []sysRun{{Kind: "apply", Objs: []sysObj{soA, soD}}, {Kind: "destroy", EnvDel: []jid{soD.ID}}}},
 		// m depends on a through its mutation annotation; later m's annotation gains an external source listed first (m becomes
 		// invalid) while a is dropped from the apply set: a must not be pruned while m (still live, still depending on it) is skipped
 		{Pre: pre, Runs: []sysRun{{Kind: "apply", Objs: []sysObj{soA, soM}},
